@@ -232,7 +232,10 @@ CLAIMED = {
          'pattern, both slash modes and every path, it matches the whole path iff the segments can be assigned to the elements; '
          'C05_engine_captures - the first successful path of a backtracking engine (Model/Backtrack.v, proved to enumerate '
          'exactly the language) gives every binding group the tokens of the token-level matcher; C05_int_failures_exact - '
-         'on the regenerated int lexeme int() fails exactly for sign-space and > 4300 digits. Tie: '
+         'on the regenerated int lexeme int() fails exactly for sign-space and > 4300 digits; C05_match_path_end_to_end - '
+         'BoundRoute.match_path as the code spells it (engine on the assembled expression, then build_converter\'s own string '
+         'operations on each group\'s text) IS the model\'s match_path, for every accepted pattern, mode and path; the statement '
+         'skeletons of _compile_path_pattern, build_converter and match_path are regenerated and pinned (C05_route_shape). Tie: '
          'translator + regex-tree comparison + exhaustive differential run: every string of length <= 4 (5 thorough) over an 11-symbol alphabet x '
          'several hundred patterns x 3 slash modes against BoundRoute.match_path (values and types).'),
    note=COMMON_NOTE + 'Modelled not verified: that Python\'s re IS a backtracking engine with the search order of Model/Backtrack.v and that '
